@@ -600,9 +600,9 @@ Definition fast_match (c : cfg) : res (action * cfg) :=
   if ctr c =? 256 then jump BlockDone c
   else if 285 <? ctr c then jump InvalidLitlen c
   else
-    let i := N.land (ctr c - 257) 31 in
-    let c := set_nex c (tab GenTables.t_LENGTH_EXTRA i) in
-    let c := set_ctr c (tab GenTables.t_LENGTH_BASE i) in
+    i0 <- csub (ctr c) 257 157 ;;              (* (l.counter - 257): u32 subtraction *)
+    let i := N.land i0 31 in
+    let c := set_ctr (set_nex c (tab GenTables.t_LENGTH_EXTRA i)) (tab GenTables.t_LENGTH_BASE i) in
     c <- fill_bit_buffer c ;;
     c <- (if nex c =? 0 then Ret c
           else
